@@ -77,7 +77,7 @@ class C07(Prop):
         rng = ctx.rng(stream)
         cases = []
         trees = list(S.SPECIAL_TREES)
-        for _ in range(ctx.scale(12, 150) * budget_scale):
+        for _ in range(ctx.scale(40, 500) * budget_scale):
             trees.append(S.random_tree(rng, rng.choice([2, 3, 4, 5, 6, 7])))
         if stream != "main":
             rng.shuffle(trees)
@@ -85,11 +85,11 @@ class C07(Prop):
             cases.append({"par": par, "kind": "tdvp2s", "sub": "run", "seed": rng.randrange(10 ** 9), "herm": True, "coeffs": j % 4 == 0,
                           "ttno_shuffle": j % 2 == 0, "mode": "default" if j % 5 == 0 else "expm",
                           "nsteps": rng.choice([1, 2, 3]) if len(par) <= 5 else 1, "nterms": rng.choice([1, 2, 3])})
-        for rep in range(ctx.scale(8, 48) * budget_scale):
+        for rep in range(ctx.scale(16, 120) * budget_scale):
             cases.append({"par": [None, 0], "kind": "tdvp2s", "sub": "twonode", "seed": rng.randrange(10 ** 9), "herm": True,
                           "coeffs": rep % 2 == 0, "phys": [rng.choice([2, 3]), rng.choice([2, 3])], "bond": {1: rng.choice([1, 2, 3, 4])},
                           "mode": "expm", "nsteps": rng.choice([1, 2]), "nterms": rng.choice([2, 3, 4])})
-        for rep in range(ctx.scale(24, 200) * budget_scale):
+        for rep in range(ctx.scale(60, 600) * budget_scale):
             par = rng.choice(trees)
             tr = {"max_bond": rng.choice([1, 1, 2, 3, 4]), "rel_tol": rng.choice([0.0, 1e-15, 1e-3, 0.3, 0.9, 2.0, float("-inf")]),
                   "total_tol": rng.choice([0.0, 1e-15, 1e-2, 1.0, 1e3, float("-inf")]), "sum_trunc": rep % 3 == 0, "renorm": rep % 4 == 0}
@@ -118,9 +118,14 @@ class C07(Prop):
         return S.eval_models(ctx, cases, obs)
 
     def compare(self, case, ob, mo):
+        S.tally_instance(self, mo)
         if ob.get("construct"):
             return f"implementation raised in the constructor: {ob['exception']}"
         return S.compare_traces(case, ob, mo)
+
+    def extra_obligations(self, ctx):
+        n, ok, fails = self.__dict__.get("_inst", [0, 0, []])
+        return n, ok, fails
 
     def oracle(self, case, ob):
         kind = "tdvp2s"
